@@ -53,3 +53,8 @@ def _op_in(v, params):
 @predicate("input_top_in")
 def _input_top_in(v, params):
     return v.get("input_top") in params.get("families", [])
+
+
+@predicate("field_in")
+def _field_in(v, params):
+    return v.get(params.get("field")) in params.get("values", [])
